@@ -563,7 +563,10 @@ def decrypt_metadata(encrypted_metadata: bytes, private_key: RSA.RsaKey) -> Beac
     pt = cipher.decrypt(encrypted_metadata, None)
     if pt is None:
         raise ValueError("Failed to RSA decrypt metadata")
-    metadata = BeaconMetadata(pt)
+    try:
+        metadata = BeaconMetadata(pt)
+    except EOFError:
+        raise ValueError(f"Decrypted metadata is too short to be valid, got {len(pt)} bytes") from None
     if metadata.magic != 0xBEEF:
         raise ValueError(f"Invalid metadata magic, got {metadata.magic:08x}, expected 0xbeef")
     return metadata
